@@ -59,9 +59,11 @@ def interesting_value(outcome):
 def diff_signature(meta, ctyped, a, b, cls):
     """Root-cause label for a difference between two outcomes of the same call (a = expected side)."""
     if a[0] == "ok" and b[0] == "ok" and a[1][0] == "tuple" and b[1][0] == "tuple" and len(a[1][1]) == len(b[1][1]):
-        for nm, x, y in zip(meta["locals"], a[1][1], b[1][1]):
-            if x == y:
-                continue
+        diffs = [(nm, x, y) for nm, x, y in zip(meta["locals"], a[1][1], b[1][1]) if x != y]
+        # several locals may differ because one mis-typed local flows into others (w = closure returning y):
+        # label by the first differing local that inference gave a C type, else by the first differing local
+        diffs.sort(key=lambda d: ctyped.get(d[0][2:] if d[0].startswith("m_") else d[0], "object") == "object")
+        for nm, x, y in diffs[:1]:
             base = nm.split("_")[0].rstrip("0123456789") if not nm.startswith("m_") else "maybe-unbound"
             ctype = ctyped.get(nm[2:] if nm.startswith("m_") else nm, "object")
             if x == ["str", "'unbound'"]:
